@@ -6,13 +6,20 @@
 EXTENDS Paginate
 
 Bound == nMut <= MaxMut /\ nTrav <= MaxTrav
-MCView == <<registered, idxValid, idx, pageSize, tActive, tDone, tCursor, tSeen, tStable, tInit, tMut, nMut, nTrav>>
+\* hidden-set families for the configurations (HiddenSets <- ...)
+AllHidden == SUBSET Ids
+NoHidden == {{}}
+\* quick exhaustive run under mutation: no filter, a whole first page (size 1 or 2), an inner id, all but the first
+\* (every filter x every registered set x every page size without mutation is WalkOK, in every configuration)
+SomeHidden == {{}, {1, 2}, {3}, Ids \ {1}}
+
+MCView == <<registered, idxValid, idx, pageSize, tActive, tDone, tCursor, tHidden, tSeen, tStable, tInit, tMut, nMut, nTrav>>
 
 \* the exhaustive runs do not need the read-only probes in the state graph: their results are
 \* checked in every state by ProbesOK instead
 MCNext ==
   \/ \E i \in Ids : Add(i) \/ Remove(i) \/ Replace(i)
-  \/ StartTraversal
+  \/ \E H \in HiddenSets : StartTraversal(H)
   \/ FetchPage
 MCSpec == Init /\ [][MCNext]_svars
 
@@ -26,7 +33,11 @@ ProbesOK ==
          /\ r.next = 0 <=> Cardinality({i \in registered : i > c}) <= pageSize
          /\ r.next # 0 => r.next = r.items[Len(r.items)]
   /\ ListResult(BadCur).kind = "invalid-params"
-  /\ Walk(SortKeys, pageSize, 0, Cardinality(Ids) + 1) = SortedSeq(registered)
+  /\ Walk(SortKeys, pageSize, 0, Cardinality(Ids) + 1, {}) = SortedSeq(registered)
+
+\* the iterator (follow the cursor, whatever arrived) yields the visible registered items under EVERY filter;
+\* the walk depends on (registered, pageSize) only, all of which occur before the first traversal
+WalkOK == ~tActive => \A H \in SUBSET Ids : Walk(SortKeys, pageSize, 0, Cardinality(Ids) + 1, H) = SortedSeq(registered \ H)
 
 \* Cover configuration: the graph handed to tools/graphwalk.py.  One initial state; the first step
 \* (Setup) chooses the initially registered set and the page size, so that a path through the
@@ -34,33 +45,37 @@ ProbesOK ==
 \* stays small; enabledness of every action depends on view variables only.
 CoverView == <<registered, idxValid, pageSize, tActive, tDone, tCursor>>
 CoverInit == /\ registered = {} /\ idxValid = FALSE /\ idx = <<>> /\ pageSize = 0
-             /\ tActive = FALSE /\ tDone = FALSE /\ tCursor = 0 /\ tSeen = <<>>
+             /\ tActive = FALSE /\ tDone = FALSE /\ tCursor = 0 /\ tHidden = {} /\ tSeen = <<>>
              /\ tStable = {} /\ tInit = {} /\ tMut = FALSE /\ nMut = 0 /\ nTrav = 0
              /\ res = [kind |-> "none"]
 Setup(S, ps) ==
   /\ pageSize = 0
   /\ registered' = S /\ pageSize' = ps
   /\ res' = [kind |-> "ok"]
-  /\ UNCHANGED <<idxValid, idx, tActive, tDone, tCursor, tSeen, tStable, tInit, tMut, nMut, nTrav>>
+  /\ UNCHANGED <<idxValid, idx, tActive, tDone, tCursor, tHidden, tSeen, tStable, tInit, tMut, nMut, nTrav>>
 Ready == pageSize # 0
 CAdd(i) == Ready /\ Add(i)
 CRemove(i) == Ready /\ Remove(i)
 CReplace(i) == Ready /\ Replace(i)
-CStartTraversal == Ready /\ StartTraversal
+CStartTraversal(H) == Ready /\ StartTraversal(H)
 CFetchPage == Ready /\ FetchPage
-CIterate == Ready /\ Iterate
+CIterate(H) == Ready /\ Iterate(H)
 CoverNext ==
   \/ \E S \in SUBSET Ids, ps \in PageSizes : Setup(S, ps)
   \/ \E i \in Ids : CAdd(i) \/ CRemove(i) \/ CReplace(i)
-  \/ CStartTraversal
+  \/ \E H \in HiddenSets : CStartTraversal(H)
   \/ CFetchPage
-  \/ CIterate
+  \/ \E H \in HiddenSets : CIterate(H)
 CoverSpec == CoverInit /\ [][CoverNext]_svars
-CoverInv == pageSize # 0 => (ExactlyOnceNoMutation /\ StableExactlyOnce /\ StrictlyIncreasing /\ IteratorEqualsManual /\ IndexFresh)
+CoverInv == pageSize # 0 => (ExactlyOnceNoMutation /\ StableExactlyOnce /\ StrictlyIncreasing /\ IteratorEqualsManual /\ IndexFresh /\ HiddenNeverSeen)
 
 \* reachability witnesses (each must be VIOLATED, otherwise the model is vacuous)
 NeverStaleCursor == ~(tActive /\ ~tDone /\ tCursor # 0 /\ tCursor \notin registered)
 NeverDoneMutated == ~(tDone /\ tMut /\ tStable # {} /\ tStable # tInit)
 NeverUnstableSeen == ~(tDone /\ \E i \in Range(tSeen) : i \notin tStable)
 NeverMultiPage == ~(tDone /\ Len(tSeen) > pageSize)
+\* an empty page that carries a cursor arrived, and later pages brought items
+NeverEmptyPageThenItems == ~(tDone /\ tSeen # <<>> /\ tHidden # {} /\ tSeen[1] > pageSize /\ ~tMut /\ (1..pageSize) \subseteq tInit)
+\* a shortened page with a cursor
+NeverShortPage == ~(tActive /\ ~tDone /\ tCursor # 0 /\ tSeen # <<>> /\ Len(tSeen) < pageSize /\ ~tMut)
 =============================================================================
